@@ -656,6 +656,16 @@ def h_restart_conversation(ctx):
 
 
 @ST.deterministic("c03-h_manager_exception_mapping")
+def h_content(ctx, kind, which):
+    """'with the original content': what the application composes is what the recipient's application is handed -- the payload mapping
+    of the message kinds the statement names (C10's harness: every field a solver variable), run here on the content clause's behalf"""
+    from checks import c10
+    try:
+        return c10.h_roundtrip(ctx, kind, which, 0) + [(l, o) for l, o in c10.h_peer_payload(ctx, kind, which, 0) if "re-serialised" in l]
+    finally:
+        c10.restore()
+
+
 def h_manager_exception_mapping(ctx):
     """REAL AxolotlManager.decrypt_*: each failure class of the ratchet library is reported as the matching yowsup class
     (duplicate != invalid message != invalid key id != no session) -- the receive layer's reactions depend on it"""
@@ -729,6 +739,9 @@ def cases(tier):
         for f in (1, 2):
             cs.append(dict(name="retry-loop[%s,%d failed deliveries]" % ("group" if grp else "1:1", f), fn=h_retry_loop, args=(grp, f)))
     cs.append(dict(name="restart[real managers and stores]", fn=h_restart_conversation, keep_samples=12))
+    for kind in ("text", "extended_text", "image", "location", "contact"):
+        for which in ("none", "all"):
+            cs.append(dict(name="content[%s,%s optional fields]" % (kind, which), fn=h_content, args=(kind, which)))
     cs.append(dict(name="send2[1:1]", fn=h_send_two, args=("contact",)))
     cs.append(dict(name="send2[group]", fn=h_send_two, args=("group",)))
     for payload in ("text", "extended-text"):
